@@ -322,6 +322,44 @@ example : Param.Sorted ([⟨20, some 5⟩, ⟨10, none⟩, ⟨1, some 3⟩] : Li
     apiFormulaAt 150 (servedFormulas [(1, "f"), (100, "g")] (some 200)) = some "g" ∧
     engineFormulaAt [(1, "f"), (100, "g")] (some 200) 201 = none := by decide
 
+/-- **Listings: scales.**  `/parameter/<scale>` serves one row `{threshold: value}` per date at which
+something changes in the scale (`buildApiScale`).  For every day `d`: let `D` be the latest such date
+on or before `d`; if some bracket has a threshold at `D` then reading the listing the way the API
+documents (the row of the latest date on or before `d`) gives exactly the brackets in force on day
+`d` — for every bracket whose threshold is not null on day `d`, its threshold and value on day `d`,
+read from the histories the way the engine reads them (`apiGetValue` = `Param.pget`,
+`C20_listings_partial`) — and before the first date of the scale the listing shows nothing and no
+bracket is in force.  When the first bracket is not stopped the served document is these rows.
+**Not covered** (the deviation recorded in DESIGN §7, outside the statement's quantifier): a date at
+which EVERY threshold is null gets no row (the reader goes on seeing the previous one), and a scale
+whose FIRST bracket's latest threshold is null is shown as stopped (`null`) from that date on whatever
+the other brackets say. -/
+theorem C20_listing_scale (brs : List ApiBracket) (d : Int) :
+    (∀ D, D ∈ bracketDates brs → D ≤ d → (∀ k ∈ bracketDates brs, k ≤ d → k ≤ D) → scaleRow D brs ≠ [] →
+      apiGetValue d (servedScale brs) = some (scaleRow d brs)) ∧
+    ((∀ k ∈ bracketDates brs, ¬ k ≤ d) → apiGetValue d (servedScale brs) = none ∧ scaleRow d brs = []) ∧
+    (∀ b0 r, brs = b0 :: r → (∀ dd, latestEntry b0.thresholds ≠ some (dd, none)) → buildApiScale brs = servedScale brs) := by
+  refine ⟨(servedScale_read brs d).1, (servedScale_read brs d).2, ?_⟩
+  intro b0 r hb hns
+  subst hb
+  unfold buildApiScale
+  cases hl : latestEntry b0.thresholds with
+  | none => simp only [hl]
+  | some p =>
+    obtain ⟨dd, v⟩ := p
+    cases v with
+    | none => exact absurd hl (hns dd)
+    | some x => simp only [hl]
+
+private def exScale : List ApiBracket :=
+  [⟨[(10, some 0)], [(10, some (1/10)), (30, some (1/5))]⟩, ⟨[(20, some 1000)], [(20, some (3/10))]⟩]
+
+example : bracketDates exScale = [10, 10, 30, 20, 20] ∧
+    buildApiScale exScale = [(10, some [(0, some (1/10))]), (30, some [(0, some (1/5)), (1000, some (3/10))]),
+      (20, some [(0, some (1/10)), (1000, some (3/10))])] ∧
+    apiScaleAt 25 (buildApiScale exScale) = some [(0, 1/10), (1000, 3/10)] ∧
+    apiScaleAt 9 (buildApiScale exScale) = none ∧ scaleRow 25 exScale = scaleRow 20 exScale := by decide +kernel
+
 /-! ### YAML tests -/
 
 /-- **A YAML test passes exactly when every expected output lies within the margins of the
@@ -484,5 +522,122 @@ example : verdictSim exSim (exTest (outByVariable "status" none [.str "owner", .
     verdictSim exSim (exTest (outByInstance "persons" "status" none ["a", "b"] [.str "owner", .str "tenant"]) none) = true ∧
     verdictSim exSim (exTest (outByInstance "persons" "salary" (some "month:2018-01") ["a", "b"] [.num 1, .int 0]) (some (1/4))) = false ∧
     verdictSim exSim (exTest (outByVariable "salary" (some "month:2018-01") [.num 1, .int 0]) (some (1/4))) = false := by decide +kernel
+
+/-- **The verdict is monotone in the margins.**  If test `t'` differs from test `t` only in its
+margins and states, for every variable, margins at least as wide (`MarginsWider`: whatever the
+margins of `t` accept, those of `t'` accept), then `t'` passes whenever `t` passes — widening a
+margin never turns a pass into a fail, narrowing one never turns a fail into a pass.  `Wider` holds
+in particular (2) for a larger absolute margin, (3) for a relative margin larger in absolute value,
+(4) for any non-negative absolute margin (with any relative margin... of a test that stated none and
+therefore demanded equality), (5) when one of two stated margins is dropped. -/
+theorem C20_verdict_monotone (w : Sim) (t t' : YTest)
+    (hp : t'.period = t.period) (ho : t'.output = t.output) (hon : t'.only = t.only) (hig : t'.ignore = t.ignore)
+    (hm : MarginsWider t t') :
+    ((verdictSim w t = true → verdictSim w t' = true) ∧ (verdictSim w t' = false → verdictSim w t = false)) ∧
+    (∀ (m m' : Rat) (r : Option Rat), m ≤ m' → Wider (some m) r (some m') r) ∧
+    (∀ (a : Option Rat) (r r' : Rat), absQ r ≤ absQ r' → Wider a (some r) a (some r')) ∧
+    (∀ (m : Rat) (r : Option Rat), 0 ≤ m → Wider none none (some m) r) ∧
+    (∀ (m r : Rat), Wider (some m) (some r) (some m) none ∧ Wider (some m) (some r) none (some r)) := by
+  have hmono : verdictSim w t = true → verdictSim w t' = true := by
+    intro h
+    have hexp : expectations w t' = expectations w t := by simp only [expectations, ho, hp]
+    unfold verdictSim at h ⊢
+    rw [hexp]
+    cases hx : expectations w t with
+    | error e => rw [hx] at h; cases h
+    | ok xs =>
+      rw [hx] at h
+      simp only [List.all_eq_true] at h ⊢
+      intro x hxm
+      have hc := h x hxm
+      have hsi : shouldIgnore t' x.var = shouldIgnore t x.var := by simp only [shouldIgnore, hon, hig]
+      unfold checkExpectation at hc ⊢
+      rw [hsi]
+      by_cases hk : instKnown w x = false
+      · rw [if_pos hk] at hc; cases hc
+      · rw [if_neg hk] at hc ⊢
+        by_cases hs : shouldIgnore t x.var = true
+        · rw [if_pos hs]
+        · rw [if_neg hs] at hc ⊢
+          exact checkValue_mono w t t' hm x hc
+  refine ⟨⟨hmono, ?_⟩, ?_, ?_, ?_, ?_⟩
+  · intro h
+    cases hv : verdictSim w t with
+    | false => rfl
+    | true => rw [hmono hv] at h; cases h
+  · intro m m' r hle e x h
+    rw [near_iff] at h ⊢
+    refine ⟨fun h' => (by cases h'), fun m'' hm'' => ?_, h.2.2⟩
+    cases hm''
+    exact Rat.le_trans (h.2.1 m rfl) hle
+  · intro a r r' hle e x h
+    rw [near_iff] at h ⊢
+    refine ⟨fun _ h' => (by cases h'), h.2.1, fun r'' hr'' => ?_⟩
+    cases hr''
+    refine Rat.le_trans (h.2.2 r rfl) ?_
+    rw [absQ_mul, absQ_mul]
+    exact Rat.mul_le_mul_of_nonneg_right hle (absQ_nonneg e)
+  · intro m r hm0 e x h
+    rw [near_iff] at h ⊢
+    have hex : e = x := h.1 rfl rfl
+    subst hex
+    have h0 : absQ (e - e) = 0 := by
+      have : e - e = 0 := by grind
+      rw [this]; rfl
+    refine ⟨fun h' => (by cases h'), fun m' hm' => ?_, fun r' _ => ?_⟩
+    · cases hm'; rw [h0]; exact hm0
+    · rw [h0]; exact absQ_nonneg _
+  · intro m r
+    refine ⟨fun e x h => ?_, fun e x h => ?_⟩
+    · rw [near_iff] at h ⊢
+      exact ⟨fun h' => (by cases h'), h.2.1, fun r' hr' => (by cases hr')⟩
+    · rw [near_iff] at h ⊢
+      exact ⟨fun _ h' => (by cases h'), fun m' hm' => (by cases hm'), h.2.2⟩
+
+example : MarginsWider (exTest [("salary", .list [.num 2, .int 0])] (some (1/2))) (exTest [("salary", .list [.num 2, .int 0])] (some 3)) ∧
+    verdictSim exSim (exTest [("salary", .list [.num 2, .int 0])] (some (1/2))) = true ∧
+    verdictSim exSim (exTest [("salary", .list [.num 2, .int 0])] (some 3)) = true ∧
+    verdictSim exSim (exTest [("salary", .list [.num 2, .int 0])] (some (1/4))) = false := by
+  refine ⟨?_, by decide +kernel, by decide +kernel, by decide +kernel⟩
+  intro var a r ha hr
+  simp only [exTest, marginFor, lookupM, optE, Except.ok.injEq] at ha hr
+  subst ha; subst hr
+  refine ⟨some 3, none, rfl, rfl, ?_⟩
+  intro e x h
+  rw [near_iff] at h ⊢
+  refine ⟨fun h' => (by cases h'), fun m hm => ?_, fun r hr => (by cases hr)⟩
+  cases hm
+  exact Rat.le_trans (h.2.1 (1/2) rfl) (by decide +kernel)
+
+/-- **The three layouts denote the same elementary assertions.**  Under the hypotheses of
+`C20_layouts_agree` (instance `ids[k]` has index `k`, one expected value per instance), the test
+written by variable, by entity and by entity instance are normalised to expectations that stand for
+exactly the same list of assertions "(variable, period, index of the instance, expected value)"
+(`atomsOf`): `(var, period, k, es[k])` for every `k`. -/
+theorem C20_layouts_denote (w : Sim) (t : YTest) (var sg pl : String) (pw : Option String)
+    (ids : List String) (es : List Exp)
+    (hvar : (w.vtype var).isSome = true)
+    (hsg : w.vtype sg = none ∧ w.singular sg = true)
+    (hpl : w.vtype pl = none ∧ w.singular pl = false ∧ w.plural pl = true)
+    (hlen : es.length = ids.length)
+    (hidx : ∀ k (h : k < ids.length), w.index pl ids[k] = some k) :
+    ∃ xv xe xi,
+      expectations w { t with output := some (outByVariable var pw es) } = .ok xv ∧
+      expectations w { t with output := some (outByEntity sg var pw es) } = .ok xe ∧
+      expectations w { t with output := some (outByInstance pl var pw ids es) } = .ok xi ∧
+      xv.flatMap (atomsOf w ids.length) = (List.zipIdx es).map (fun p => ⟨var, orPeriod pw t.period, p.2, p.1⟩) ∧
+      xe.flatMap (atomsOf w ids.length) = xv.flatMap (atomsOf w ids.length) ∧
+      xi.flatMap (atomsOf w ids.length) = xv.flatMap (atomsOf w ids.length) := by
+  refine ⟨_, _, _, expectations_byVariable w t var pw es hvar, expectations_byEntity w t sg var pw es hsg.1 hsg.2,
+    expectations_byInstance w t pl var pw ids es hpl.1 hpl.2.1 hpl.2.2, ?_, ?_, ?_⟩
+  · simp [atomsOf]
+  · simp [atomsOf]
+  · rw [atoms_instExps w ids.length pl var (orPeriod pw t.period) ids es 0 hlen (fun k h => by simpa using hidx k h)]
+    simp [atomsOf]
+
+example : (instExps "persons" "status" (some "2018-01") ["a", "b"] [.str "owner", .str "tenant"]).flatMap (atomsOf exSim 2) =
+    [⟨"status", some "2018-01", 0, .str "owner"⟩, ⟨"status", some "2018-01", 1, .str "tenant"⟩] ∧
+    ([⟨none, none, "status", some "2018-01", .list [.str "owner", .str "tenant"]⟩] : List Expectation).flatMap (atomsOf exSim 2) =
+    [⟨"status", some "2018-01", 0, .str "owner"⟩, ⟨"status", some "2018-01", 1, .str "tenant"⟩] := by decide +kernel
 
 end OFCore
